@@ -24,6 +24,7 @@
 #include <stdlib.h>
 #include <string.h>
 #include <unistd.h>
+#include <fcntl.h>
 #include <sys/wait.h>
 #include "util.h"
 #include "cc.h"
@@ -167,6 +168,14 @@ main(void)
 			return 3;
 		}
 		if (pid == 0) {
+			int nul;
+
+			/* exit() in the child would otherwise seek the shared stdin offset back */
+			nul = open("/dev/null", O_RDONLY);
+			if (nul >= 0) {
+				dup2(nul, 0);
+				close(nul);
+			}
 			close(p[0]);
 			dup2(p[1], 2);
 			close(p[1]);
